@@ -47,6 +47,11 @@ def star3(vs):
     return [(vs[0], vs[1]), (vs[0], vs[2])]
 
 
+def kite4(vs):
+    # three orbits: the two "wing" vertices (first orbit, 2 vertices), the "hub" (second) and the "tail" (third)
+    return [(vs[0], vs[1]), (vs[0], vs[2]), (vs[1], vs[2]), (vs[2], vs[3])]
+
+
 def fast_configs(tier):
     from gcmpy.motif_generators.clique_motif import clique_motif
     from gcmpy.motif_generators.cycle_motif import cycle_motif
@@ -91,6 +96,8 @@ def custom_configs(tier):
         ("diamond-2-orbits", [2, 2], [diamond5],
          [lambda: ("outer", "outer", "outer", "outer", "inner")], [[0, 1]]),
         ("star-2-orbits", [1, 2], [star3], [lambda: ("s01", "s02")], [[0, 1]]),
+        # three orbits, two of them single-vertex orbits that are not the leading one
+        ("kite-3-orbits", [2, 1, 1], [kite4], [lambda: ("w", "wh", "wh", "ht")], [[0, 1, 2]]),
         ("triangle+two-edge-path", [3, 3], [tri_tuple, path3],
          [lambda: ("3-clique",) * 3, lambda: ("p01", "p12")], [[0], [1]]),
         # motif order differs from column order (motif 0 uses column 1 and vice versa)
